@@ -836,6 +836,17 @@ where
         let num_betas = opening_proof.commit_phase_commits.len();
         let num_queries = opening_proof.query_proofs.len();
 
+        // `get_challenges_circuit` samples one beta per (commitment, PoW witness) pair, so a proof
+        // whose commit-phase commitment and witness counts disagree yields fewer betas than
+        // commitments. Reject it here instead of slicing out of bounds.
+        if challenges.len() < 1 + num_betas {
+            return Err(VerificationError::InvalidProofShape(format!(
+                "expected {} FRI challenges for {num_betas} commit-phase commitments, got {}",
+                1 + num_betas,
+                challenges.len()
+            )));
+        }
+
         let alpha = challenges[0];
         let betas = &challenges[1..1 + num_betas];
 
@@ -1235,6 +1246,17 @@ where
         let fri_proof = &opening_proof.inner_proof;
         let num_betas = fri_proof.commit_phase_commits.len();
         let num_queries = fri_proof.query_proofs.len();
+
+        // `get_challenges_circuit` samples one beta per (commitment, PoW witness) pair, so a proof
+        // whose commit-phase commitment and witness counts disagree yields fewer betas than
+        // commitments. Reject it here instead of slicing out of bounds.
+        if challenges.len() < 1 + num_betas {
+            return Err(VerificationError::InvalidProofShape(format!(
+                "expected {} FRI challenges for {num_betas} commit-phase commitments, got {}",
+                1 + num_betas,
+                challenges.len()
+            )));
+        }
 
         let alpha = challenges[0];
         let betas = &challenges[1..1 + num_betas];
